@@ -15,7 +15,11 @@ func main() {
 		fmt.Println("usage: chain <PropId> [quick|thorough]")
 		os.Exit(2)
 	}
-	f, ok := checks[os.Args[1]]
+	name := os.Args[1]
+	if len(os.Args) > 3 { // a named part: chain <PropId> <tier> <part>
+		name += ":" + os.Args[3]
+	}
+	f, ok := checks[name]
 	if !ok {
 		ev.Fatal("unknown property %s", os.Args[1])
 	}
